@@ -36,12 +36,12 @@ type hostileObs struct {
 }
 
 type hostileRun struct {
-	cfg   hostileCfg
-	k     *kcp.KCP
-	sm    *senderModel
-	obs   hostileObs
-	start time.Time
-	err   error
+	cfg     hostileCfg
+	k       *kcp.KCP
+	sm      *senderModel
+	obs     hostileObs
+	start   time.Time
+	err     error
 	inInput bool
 	// ackBytes counts the bytes fed to Input since the ack list was last seen empty
 	ackBytes int
